@@ -25,6 +25,7 @@ async def main():
     from tickit.core.state_interfaces.internal import InternalStateConsumer, InternalStateProducer, InternalStateServer
     from tickit.core.typedefs import Changes, Input, SimTime
     ioc_starts = []
+    countable = hasattr(epics_module, "_build_and_run_ioc")   # (if the module starts its IOC otherwise, starts cannot be counted here)
     epics_module._build_and_run_ioc = lambda: ioc_starts.append(1)   # the IOC itself is never started (no network); its start is counted
 
     class Dev(Device):
@@ -91,7 +92,7 @@ async def main():
                 raised[n] = type(e).__name__
         out[run] = {n: {"records": {r.name.replace(f"{run}_", ""): r.get() for r in a.records}, "notified": a.notified, "interrupt": raised[n]}
                     for n, a in adapters.items()}
-        out[run]["__ioc_starts__"] = len(ioc_starts)
+        out[run]["__ioc_starts__"] = len(ioc_starts) if countable else None
         del ioc_starts[:]
     if spec.get("divided"):
         # the same EPICS devices in a configuration FILE, of which THIS process hosts only `alpha` (the others run elsewhere:
@@ -116,7 +117,7 @@ async def main():
         del ioc_starts[:]
         sim = build_simulation(path, "internal", include_schedulers=False, components_to_run={"alpha"})
         await asyncio.wait_for(sim.run(), timeout=60)
-        out["divided"] = {"hosted": sorted(made), "__ioc_starts__": len(ioc_starts),
+        out["divided"] = {"hosted": sorted(made), "__ioc_starts__": len(ioc_starts) if countable else None,
                           "records": {r.name: r.get() for r in made["alpha"].records} if "alpha" in made else None}
 
 try:
